@@ -16,6 +16,11 @@ def main():
     ok &= compileall.compile_dir(os.path.join(VERIF, "pyvc"), quiet=1)
     ok &= compileall.compile_dir(os.path.join(VERIF, "checks"), quiet=1)
     ok &= compileall.compile_dir(os.path.join(VERIF, "contracts"), quiet=1)
+    sys.path.insert(0, VERIF)
+    from xmlsem import anchors
+    bad = anchors.check()
+    print("xmlsem anchor vectors:", "ok" if not bad else bad)
+    ok &= not bad
     os.makedirs(os.path.join(VERIF, "evidence"), exist_ok=True)
     os.makedirs(os.path.join(VERIF, "replays"), exist_ok=True)
     sys.exit(0 if ok else 1)
